@@ -38,6 +38,29 @@ extern "C" {
     fn mmap(addr: *mut u8, len: usize, prot: i32, flags: i32, fd: i32, off: i64) -> *mut u8;
     fn munmap(addr: *mut u8, len: usize) -> i32;
     fn personality(p: u64) -> i32;
+    fn fork() -> i32;
+    fn waitpid(pid: i32, status: *mut i32, options: i32) -> i32;
+}
+/// plain fork(2); 0 in the child
+pub fn fork_process() -> i32 {
+    unsafe { fork() }
+}
+/// raw wait status of the child (-1: waitpid failed)
+pub fn wait_for(pid: i32) -> i32 {
+    let mut st = 0i32;
+    loop {
+        let r = unsafe { waitpid(pid, &mut st, 0) };
+        if r == pid {
+            return st;
+        }
+        if r < 0 {
+            return -1;
+        }
+    }
+}
+/// leave the process at once (no atexit handlers, no stdio flush)
+pub fn exit_now(code: i32) -> ! {
+    unsafe { _exit(code) }
 }
 const RLIMIT_AS: i32 = 9;
 
